@@ -197,6 +197,22 @@ class FromMatchpyExpressionMapper(BaseMatchPyMapper):
 # }}}
 
 
+
+def from_matchpy_binding(from_matchpy_expr: m.FromMatchpyT, arg):
+    """Convert what a wildcard was bound to: an expression, or, for star and
+    plus wildcards, a tuple or a multiset of expressions.
+    """
+    if isinstance(arg, MatchpyExpression):
+        return from_matchpy_expr(arg)
+    elif isinstance(arg, multiset.Multiset):
+        return multiset.Multiset({from_matchpy_expr(expr): count
+                                  for expr, count in arg.items()})
+    elif isinstance(arg, tuple):
+        return tuple(from_matchpy_expr(el) for el in arg)
+    else:
+        raise NotImplementedError(f"Cannot convert back {type(arg)}")
+
+
 @dataclass(frozen=True, eq=True)
 class ToFromReplacement:
     f: Callable[..., p.Expression]
@@ -207,17 +223,7 @@ class ToFromReplacement:
         kwargs_to_f = {}
 
         for kw, arg in kwargs.items():
-            if isinstance(arg, MatchpyExpression):
-                arg = self.from_matchpy_expr(arg)
-            elif isinstance(arg, multiset.Multiset):
-                arg = multiset.Multiset({self.from_matchpy_expr(expr): count
-                                         for expr, count in arg.items()})
-            elif isinstance(arg, tuple):
-                arg = tuple(self.from_matchpy_expr(el) for el in arg)
-            else:
-                raise NotImplementedError(f"Cannot convert back {type(arg)}")
-
-            kwargs_to_f[kw] = arg
+            kwargs_to_f[kw] = from_matchpy_binding(self.from_matchpy_expr, arg)
 
         return self.to_matchpy_expr(self.f(**kwargs_to_f))
 
